@@ -20,27 +20,54 @@ theorem read_of_peek_none {d : Dev} {a : Int} {l : Nat} (h : d.peek a l = none) 
     d.read a l = (.err .device, { d with log := ⟨false, a, l, [], false⟩ :: d.log }) := by
   unfold Dev.read; rw [h]
 
+theorem writeOk_split {d : Dev} {a : Int} {l : Nat} (h : d.writeOk a l = true) :
+    d.allowed a l = true ∧ alGet d.wcount d.rejP = none := by
+  unfold Dev.writeOk at h
+  simp only [Bool.and_eq_true, Option.isNone_iff_eq_none] at h
+  exact h
+
 theorem write_of_ok {d : Dev} {a : Int} {data : Bytes} (h : d.writeOk a data.length = true) :
     d.write a data = (.ok (), { d with mem := patch d.mem a.toNat data, wcount := d.wcount + 1,
                                        log := ⟨true, a, data.length, data, true⟩ :: d.log }) := by
-  unfold Dev.write; rw [if_pos h]
+  obtain ⟨h1, h2⟩ := writeOk_split h
+  unfold Dev.write; rw [if_pos h1, h2]
 
-theorem write_of_not_ok {d : Dev} {a : Int} {data : Bytes} (h : d.writeOk a data.length = false) :
-    d.write a data =
-      (.err .device,
-        { d with wcount := d.wcount + 1, log := ⟨true, a, data.length, [], false⟩ :: d.log }) := by
-  unfold Dev.write; rw [if_neg (by simp [h])]
+/-- a write that is not OK reports a device error -/
+theorem write_fst {d : Dev} {a : Int} {data : Bytes} :
+    (d.write a data).1 = if d.writeOk a data.length = true then .ok () else .err .device := by
+  unfold Dev.write Dev.writeOk
+  cases ha : d.allowed a data.length with
+  | false => simp
+  | true =>
+    cases hp : alGet d.wcount d.rejP with
+    | none => simp
+    | some mj => simp
 
-theorem writeOk_inImage {d : Dev} {a : Int} {l : Nat} (h : d.writeOk a l = true) :
+theorem allowed_inImage {d : Dev} {a : Int} {l : Nat} (h : d.allowed a l = true) :
     0 ≤ a ∧ a + l ≤ d.mem.length ∧ touches d.noAccess a l = false := by
-  unfold Dev.writeOk inImage at h
+  unfold Dev.allowed inImage at h
   simp only [Bool.and_eq_true, decide_eq_true_eq, Bool.not_eq_true'] at h
   exact ⟨h.1.1.1.1, h.1.1.1.2, h.1.1.2⟩
 
-theorem writeOk_congr {d d' : Dev} (hm : d'.mem = d.mem) (h1 : d'.noAccess = d.noAccess)
+theorem writeOk_inImage {d : Dev} {a : Int} {l : Nat} (h : d.writeOk a l = true) :
+    0 ≤ a ∧ a + l ≤ d.mem.length ∧ touches d.noAccess a l = false :=
+  allowed_inImage (writeOk_split h).1
+
+theorem allowed_congr {d d' : Dev} (hm : d'.mem = d.mem) (h1 : d'.noAccess = d.noAccess)
     (h2 : d'.noWrite = d.noWrite) (h3 : d'.rejW = d.rejW) (h4 : d'.wcount = d.wcount)
-    (a : Int) (l : Nat) : d'.writeOk a l = d.writeOk a l := by
-  unfold Dev.writeOk; rw [hm, h1, h2, h3, h4]
+    (a : Int) (l : Nat) : d'.allowed a l = d.allowed a l := by
+  unfold Dev.allowed; rw [hm, h1, h2, h3, h4]
+
+theorem writeOk_congr {d d' : Dev} (hm : d'.mem = d.mem) (h1 : d'.noAccess = d.noAccess)
+    (h2 : d'.noWrite = d.noWrite) (h3 : d'.rejW = d.rejW) (h5 : d'.rejP = d.rejP)
+    (h4 : d'.wcount = d.wcount) (a : Int) (l : Nat) : d'.writeOk a l = d.writeOk a l := by
+  unfold Dev.writeOk; rw [allowed_congr hm h1 h2 h3 h4, h4, h5]
+
+theorem leftover_length (data : Bytes) (mj : Nat × Bytes) :
+    (Dev.leftover data mj).length ≤ data.length := by
+  unfold Dev.leftover
+  rw [List.length_take]
+  omega
 
 /-- after a successful write, reading the written range returns the data -/
 theorem peek_write_same {d : Dev} {a : Int} {data : Bytes} (h : d.writeOk a data.length = true) :
@@ -53,14 +80,14 @@ theorem peek_write_same {d : Dev} {a : Int} {data : Bytes} (h : d.writeOk a data
     decide_eq_true_eq]
   rw [if_pos ⟨h0, h1⟩, slice_patch_same _ _ _ ha]
 
-/-- a successful write does not change what a read of a disjoint range returns -/
-theorem peek_write_disjoint {d : Dev} {a : Int} {data : Bytes} {a' : Int} {l' : Nat}
-    (h : d.writeOk a data.length = true) (hd : overlaps a data.length a' l' = false) :
-    (d.write a data).2.peek a' l' = d.peek a' l' := by
-  obtain ⟨h0, h1, _⟩ := writeOk_inImage h
-  rw [write_of_ok h]
-  have ha : a.toNat + data.length ≤ d.mem.length := by omega
+/-- what a patch inside `[a, a+n)` leaves of a read of a range disjoint from `[a, a+n)` -/
+theorem peek_patch_disjoint {d : Dev} {a : Int} {n : Nat} {x : Bytes} {a' : Int} {l' : Nat}
+    (h0 : 0 ≤ a) (h1 : a + n ≤ d.mem.length) (hx : x.length ≤ n)
+    (hd : overlaps a n a' l' = false) (d' : Dev) (hm : d'.mem = patch d.mem a.toNat x)
+    (hn : d'.noAccess = d.noAccess) : d'.peek a' l' = d.peek a' l' := by
+  have ha : a.toNat + x.length ≤ d.mem.length := by omega
   unfold Dev.peek Dev.readOk inImage
+  rw [hm, hn]
   simp only [length_patch _ _ _ ha]
   split
   · rename_i hr
@@ -72,10 +99,26 @@ theorem peek_write_disjoint {d : Dev} {a : Int} {data : Bytes} {a' : Int} {l' : 
     omega
   · rfl
 
-/-- a rejected write changes nothing a read can see -/
-theorem peek_write_rejected {d : Dev} {a : Int} {data : Bytes} (h : d.writeOk a data.length = false)
-    (a' : Int) (l' : Nat) : (d.write a data).2.peek a' l' = d.peek a' l' := by
-  rw [write_of_not_ok h]; rfl
+/-- **frame**: whatever a write does (success, atomic rejection, non-atomic rejection), a
+read of a range disjoint from the written range returns what it returned before -/
+theorem peek_write_frame {d : Dev} {a : Int} {data : Bytes} {a' : Int} {l' : Nat}
+    (hd : overlaps a data.length a' l' = false) :
+    (d.write a data).2.peek a' l' = d.peek a' l' := by
+  unfold Dev.write
+  cases ha : d.allowed a data.length with
+  | false => rfl
+  | true =>
+    obtain ⟨h0, h1, _⟩ := allowed_inImage ha
+    rw [if_pos rfl]
+    cases hp : alGet d.wcount d.rejP with
+    | none =>
+      exact peek_patch_disjoint h0 h1 (Nat.le_refl _) hd _ rfl rfl
+    | some mj =>
+      exact peek_patch_disjoint h0 h1 (leftover_length data mj) hd _ rfl rfl
+
+theorem peek_write_disjoint {d : Dev} {a : Int} {data : Bytes} {a' : Int} {l' : Nat}
+    (_h : d.writeOk a data.length = true) (hd : overlaps a data.length a' l' = false) :
+    (d.write a data).2.peek a' l' = d.peek a' l' := peek_write_frame hd
 
 /-! ### what `Declared` / `PortDeclared` give -/
 
@@ -320,19 +363,24 @@ theorem survivor_disjoint {p : Profile} {g : Graph} {c : Store} {d : Dev} (hD : 
   cases hrt
   exact ⟨rfl, fun e => hkey rfl e.symm⟩
 
-/-- **the write primitive preserves the invariant** (store/device level) -/
+/-- **the write primitive preserves the invariant** (store/device level), whatever the
+device does with the write: success (WriteThrough caches the data, otherwise the own
+entries are dropped), atomic rejection, or rejection after part of the range was modified
+(own entries dropped). -/
 theorem inv_write {p : Profile} {g : Graph} {c : Store} {d : Dev} (hD : Declared p g)
     (hI : Inv p g c d) {n : NodeId} {r : Reg} {a : Int} {buf : Bytes}
     (hn : g[n]? = some (.reg r)) (hp : g[r.port]? = some .port) (hk : KeyAddr p g r a)
-    (hlen : buf.length = r.len) (hok : d.writeOk a buf.length = true) :
+    (hlen : buf.length = r.len) :
     Inv p g
-      (if r.mode = .writeThrough then ((c.invalidateBy n).invalidateBy r.port).cache n a r.len buf
+      (if d.writeOk a buf.length = true ∧ r.mode = .writeThrough then
+         ((c.invalidateBy n).invalidateBy r.port).cache n a r.len buf
        else ((c.invalidateBy n).invalidateBy r.port).invalidateOf n)
       (d.write a buf).2 := by
   have hI2 : Inv p g ((c.invalidateBy n).invalidateBy r.port) d :=
     inv_invalidateBy (inv_invalidateBy hI _) _
   split
-  · rename_i hwt
+  · rename_i hcond
+    obtain ⟨hok, hwt⟩ := hcond
     refine ⟨?_, ?_, ?_⟩
     · intro t a' l' bs h
       rw [get_cache] at h
@@ -346,7 +394,7 @@ theorem inv_write {p : Profile} {g : Graph} {c : Store} {d : Dev} (hD : Declared
         by_cases hkey : t = n → a' ≠ a
         · obtain ⟨h1, h2⟩ := survivor_disjoint hD hI hn hk h hkey
           rw [← hlen] at h2
-          rw [peek_write_disjoint hok h2]
+          rw [peek_write_frame h2]
           exact hI.coherent _ _ _ _ h1
         · exfalso
           have htn : t = n := Classical.byContradiction fun hx => hkey (fun e => absurd e hx)
@@ -374,7 +422,7 @@ theorem inv_write {p : Profile} {g : Graph} {c : Store} {d : Dev} (hD : Declared
     rename_i htn
     obtain ⟨h1, h2⟩ := survivor_disjoint hD hI hn hk h (fun e => absurd e htn)
     rw [← hlen] at h2
-    rw [peek_write_disjoint hok h2]
+    rw [peek_write_frame h2]
     exact hI.coherent _ _ _ _ h1
 
 /-- a raw port write on a port every cachable register declares empties the cache -/
